@@ -172,8 +172,8 @@ func (m *Map) point(kind string) {
 }
 
 func (m *Map) Load(key any) (value any, ok bool) { m.point("Map.Load"); return m.m.Load(key) }
-func (m *Map) Store(key, value any)             { m.point("Map.Store"); m.m.Store(key, value) }
-func (m *Map) Delete(key any)                   { m.point("Map.Delete"); m.m.Delete(key) }
+func (m *Map) Store(key, value any)              { m.point("Map.Store"); m.m.Store(key, value) }
+func (m *Map) Delete(key any)                    { m.point("Map.Delete"); m.m.Delete(key) }
 func (m *Map) Range(f func(key, value any) bool) {
 	m.point("Map.Range")
 	m.m.Range(f)
